@@ -270,7 +270,7 @@ __CPROVER_ensures(IMPLIES(EP_NVALID(n) && __CPROVER_return_value < 0,
  * not wrap, so the range test is the plain one.) */
 #define EP_PIPE_MOVED(sp0, kp0, v0, m) \
   (g_snk_pos == (size_t)((kp0) + (size_t)(m)) && g_snk_pos >= (kp0) \
-   && IMPLIES((kp0) <= g_b && g_b < g_snk_pos && (size_t)(g_b - g_a) == (size_t)((kp0) - (sp0)), g_snk_val == g_val) \
+   && IMPLIES((kp0) <= g_b && g_b < g_snk_pos && (size_t)(g_a - g_b) == (size_t)((sp0) - (kp0)), g_snk_val == g_val) \
    && IMPLIES(!((kp0) <= g_b && g_b < g_snk_pos), g_snk_val == (v0)))
 /* the source driver delivered exactly t octets */
 #define EP_SRC_TOOK(sp0, t) (g_src_pos == (size_t)((sp0) + (size_t)(t)) && g_src_pos >= (sp0))
@@ -292,16 +292,24 @@ __CPROVER_ensures(IMPLIES(EP_NVALID(n) && __CPROVER_return_value < 0,
 #define EP_SRC_FAILED_O(ret) EP_SRC_FAILED((ret), __CPROVER_old(g_src_nhard), __CPROVER_old(g_snk_nhard))
 #define EP_SNK_FAILED_O(ret) EP_SNK_FAILED((ret), __CPROVER_old(g_src_nhard), __CPROVER_old(g_snk_nhard))
 #define EP_NO_FAILURE_O EP_NO_FAILURE(__CPROVER_old(g_src_nhard), __CPROVER_old(g_snk_nhard))
+#define EP_MONOTONE_O (g_src_pos >= __CPROVER_old(g_src_pos) && g_snk_pos >= __CPROVER_old(g_snk_pos))
+/* EP_LAG_O: octets taken from the source during the call minus octets
+ * delivered to the sink during the call, written as the change of the distance
+ * between the two positions (this form lets the loop proofs of the callers go
+ * through without 64-bit cancellation lemmas).  EP_LAG_O == 0: both positions
+ * advanced by the same amount. */
+#define EP_DIST (size_t)(g_src_pos - g_snk_pos)
+#define EP_DIST_O (size_t)(__CPROVER_old(g_src_pos) - __CPROVER_old(g_snk_pos))
+#define EP_LAG_O ((size_t)(EP_DIST - EP_DIST_O))
 
 /* exactly one octet, or a hard error: of the source (nothing taken) or of the
  * sink (one octet taken from the source, none delivered) */
 #define EP_STS_ONE_POST(ret) \
   (((ret) == 1 || (ret) < 0) \
-   && IMPLIES((ret) == 1, EP_SRC_TOOK_O(1) && EP_PIPE_MOVED_O(1) \
-        && EP_NO_FAILURE_O) \
+   && IMPLIES((ret) == 1, EP_SRC_TOOK_O(1) && EP_PIPE_MOVED_O(1) && EP_NO_FAILURE_O && EP_LAG_O == 0) \
    && IMPLIES((ret) < 0, EP_PIPE_MOVED_O(0) \
-        && ((EP_SRC_FAILED_O((ret)) && EP_SRC_TOOK_O(0)) \
-         || (EP_SNK_FAILED_O((ret)) && EP_SRC_TOOK_O(1)))))
+        && ((EP_SRC_FAILED_O((ret)) && EP_SRC_TOOK_O(0) && EP_LAG_O == 0) \
+         || (EP_SNK_FAILED_O((ret)) && EP_SRC_TOOK_O(1) && EP_LAG_O == 1))))
 
 ssize_t sts_cbc(Source *source, Sink *sink)
 __CPROVER_requires(EP_SOURCE_OK(source) && EP_SINK_OK(sink))
@@ -309,39 +317,35 @@ __CPROVER_assigns(EP_PIPE_ASSIGNS)
 __CPROVER_ensures(EP_STS_ONE_POST(__CPROVER_return_value))
 ;
 
-/* exactly n octets (return n), or a hard error with a prefix of m < n octets
- * delivered and m or m + 1 taken.  n > SSIZE_MAX cannot be reported as a
- * count: only the prefix property is stated for it. */
-#define EP_STS_N_POST(n, ret) \
-  (IMPLIES((ret) >= 0, (size_t)(ret) == (n) && EP_SRC_TOOK_O((n)) \
-        && EP_PIPE_MOVED_O((n)) && EP_NO_FAILURE_O) \
-   && IMPLIES((ret) < 0, g_snk_pos >= __CPROVER_old(g_snk_pos) \
-        && EP_DELIVERED <= (n) \
-        && EP_PIPE_MOVED_O(EP_DELIVERED)) \
-   && IMPLIES((ret) < 0 && (n) <= (size_t)SSIZE_MAX, \
-        EP_DELIVERED < (n) \
-        && ((EP_SRC_FAILED_O((ret)) \
-             && EP_SRC_TOOK_O(EP_DELIVERED)) \
-         || (EP_SNK_FAILED_O((ret)) \
-             && EP_SRC_TOOK_O(EP_DELIVERED + 1u)))))
+/* exactly n octets (return n); or a hard error with a prefix of m < n octets
+ * delivered and m (source failed) or m + 1 (sink failed) taken.  A count
+ * n > SSIZE_MAX cannot be reported: only the prefix property is stated then. */
+#define EP_STS_N_POST_OK(n, ret) \
+  IMPLIES((ret) >= 0, (size_t)(ret) == (n) && EP_SRC_TOOK_O((n)) && EP_PIPE_MOVED_O((n)) && EP_NO_FAILURE_O)
+#define EP_STS_N_POST_PREFIX(n, ret) \
+  IMPLIES((ret) < 0, EP_MONOTONE_O && EP_DELIVERED <= (n) && EP_PIPE_MOVED_O(EP_DELIVERED))
+#define EP_STS_N_POST_CAUSE(n, ret) \
+  IMPLIES((ret) < 0 && (n) <= (size_t)SSIZE_MAX, EP_DELIVERED < (n) \
+        && ((EP_SRC_FAILED_O((ret)) && EP_LAG_O == 0) || (EP_SNK_FAILED_O((ret)) && EP_LAG_O == 1)))
 
 ssize_t sts_n_cbc(Source *source, Sink *sink, const size_t n)
 __CPROVER_requires(EP_SOURCE_OK(source) && EP_SINK_OK(sink))
 __CPROVER_assigns(EP_PIPE_ASSIGNS)
-__CPROVER_ensures(EP_STS_N_POST(n, __CPROVER_return_value))
+__CPROVER_ensures(EP_STS_N_POST_OK(n, __CPROVER_return_value))
+__CPROVER_ensures(EP_STS_N_POST_PREFIX(n, __CPROVER_return_value))
+__CPROVER_ensures(EP_STS_N_POST_CAUSE(n, __CPROVER_return_value))
 ;
 
 /* runs until a driver fails: the return value is that hard error (ret is the
  * error itself, or alt when the error is -ENOMEM: sts_drain reports -EPIPE
- * then); m octets delivered; when it was the source that failed (its end),
- * everything taken from it has been delivered */
+ * then); what reached the sink is a prefix; when it was the source that failed
+ * (its end), everything taken from it has been delivered */
 #define EP_STS_DRAIN_POST(ret, alt) \
-  ((ret) < 0 && g_snk_pos >= __CPROVER_old(g_snk_pos) \
-   && EP_PIPE_MOVED_O(EP_DELIVERED) \
+  ((ret) < 0 && EP_MONOTONE_O && EP_PIPE_MOVED_O(EP_DELIVERED) \
    && ((EP_SRC_FAILED_O(g_src_err) && ((ret) == g_src_err || (g_src_err == -ENOMEM && (ret) == (alt))) \
-        && EP_SRC_TOOK_O(EP_DELIVERED)) \
+        && EP_LAG_O == 0) \
     || (EP_SNK_FAILED_O(g_snk_err) && ((ret) == g_snk_err || (g_snk_err == -ENOMEM && (ret) == (alt))) \
-        && EP_SRC_TOOK_O(EP_DELIVERED + 1u))))
+        && EP_LAG_O == 1)))
 
 ssize_t sts_drain_cbc(Source *source, Sink *sink)
 __CPROVER_requires(EP_SOURCE_OK(source) && EP_SINK_OK(sink))
@@ -378,7 +382,9 @@ __CPROVER_ensures(EP_STS_ONE_POST(__CPROVER_return_value))
 ssize_t sts_n(Source *source, Sink *sink, const size_t n)
 __CPROVER_requires(EP_SOURCE_OK(source) && EP_SINK_OK(sink) && EP_NOEXT(source, sink))
 __CPROVER_assigns(EP_PIPE_ASSIGNS)
-__CPROVER_ensures(EP_STS_N_POST(n, __CPROVER_return_value))
+__CPROVER_ensures(EP_STS_N_POST_OK(n, __CPROVER_return_value))
+__CPROVER_ensures(EP_STS_N_POST_PREFIX(n, __CPROVER_return_value))
+__CPROVER_ensures(EP_STS_N_POST_CAUSE(n, __CPROVER_return_value))
 ;
 
 ssize_t sts_drain(Source *source, Sink *sink)
@@ -409,28 +415,34 @@ __CPROVER_ensures(EP_STS_DRAIN_POST(__CPROVER_return_value, -EPIPE))
 #define EP_AUX_CELL_SAME(b, lo, w) \
   IMPLIES(g_k < (b)->size && !(g_k >= (lo) && g_k - (lo) < (w)), \
     (b)->data[EP_CL(g_k, (b)->size)] == __CPROVER_old((b)->data[EP_CL(g_k, (b)->size)]))
+#define EP_WINDOW_O(b) (__CPROVER_old((b)->used) - __CPROVER_old((b)->offset))
 
-/* one transfer of at most w octets through the window: ret >= 1 octets taken
- * and delivered; or a negative value: the source driver's (nothing delivered),
- * -EINVAL when the source delivered nothing / the window is empty, or the sink
- * driver's hard error (a prefix of what was taken is delivered) */
-#define EP_STS_AUX_ONCE_POST(source, w, ret) \
+/* one transfer of at most w octets through the window.  ret >= 1: that many
+ * octets taken and delivered.  Negative: the source driver's value (nothing
+ * delivered; a chunk driver has delivered nothing either, an octet driver
+ * fewer than w octets, which stay in the window), or -EINVAL when the source
+ * delivered nothing / the window is empty, or the sink driver's hard error (a
+ * proper prefix of what was taken is delivered). */
+#define EP_STS_AUX_ONCE_OK(w, ret) \
   ((ret) != 0 && (ret) <= (ssize_t)(w) \
-   && IMPLIES((ret) > 0, EP_SRC_TOOK_O((size_t)(ret)) && EP_PIPE_MOVED_O((size_t)(ret)) && EP_NO_FAILURE_O) \
-   && IMPLIES((ret) < 0, g_src_pos >= __CPROVER_old(g_src_pos) && g_snk_pos >= __CPROVER_old(g_snk_pos) \
-        && EP_DELIVERED <= EP_TAKEN && EP_TAKEN <= (w) && EP_PIPE_MOVED_O(EP_DELIVERED) \
+   && IMPLIES((ret) > 0, EP_SRC_TOOK_O((size_t)(ret)) && EP_PIPE_MOVED_O((size_t)(ret)) && EP_NO_FAILURE_O \
+        && EP_LAG_O == 0))
+#define EP_STS_AUX_ONCE_FAIL(source, w, ret) \
+   IMPLIES((ret) < 0, EP_MONOTONE_O && EP_LAG_O <= (w) && EP_TAKEN <= (w) && EP_DELIVERED <= (w) \
+        && EP_PIPE_MOVED_O(EP_DELIVERED) \
         && (((ret) == g_src_err && EP_DELIVERED == 0 && g_snk_nhard == __CPROVER_old(g_snk_nhard) \
-             && IMPLIES((source)->kind == DATA_KIND_CHUNK, EP_TAKEN == 0)) \
-         || ((ret) == -EINVAL && EP_TAKEN == 0 && EP_DELIVERED == 0 && EP_NO_FAILURE_O) \
-         || (EP_SNK_FAILED_O(ret) && EP_DELIVERED < EP_TAKEN))))
+             && IMPLIES((source)->kind == DATA_KIND_CHUNK, EP_TAKEN == 0 && EP_LAG_O == 0)) \
+         || ((ret) == -EINVAL && EP_TAKEN == 0 && EP_DELIVERED == 0 && EP_LAG_O == 0 && EP_NO_FAILURE_O) \
+         || (EP_SNK_FAILED_O(ret) && EP_LAG_O >= 1)))
 
 ssize_t sts_some_aux(Source *source, Sink *sink, ByteBuffer *b)
 __CPROVER_requires(EP_SOURCE_OK(source) && EP_SINK_OK(sink) && EP_AUX_OK(b, source, sink))
 __CPROVER_assigns(EP_PIPE_ASSIGNS;
     b->used > b->offset: __CPROVER_object_upto(b->data + b->offset, b->used - b->offset))
-__CPROVER_ensures(EP_STS_AUX_ONCE_POST(source, __CPROVER_old(b->used) - __CPROVER_old(b->offset), __CPROVER_return_value))
+__CPROVER_ensures(EP_STS_AUX_ONCE_OK(EP_WINDOW_O(b), __CPROVER_return_value))
+__CPROVER_ensures(EP_STS_AUX_ONCE_FAIL(source, EP_WINDOW_O(b), __CPROVER_return_value))
 __CPROVER_ensures(EP_AUX_FIELDS_SAME(b))
-__CPROVER_ensures(EP_AUX_CELL_SAME(b, __CPROVER_old(b->offset), __CPROVER_old(b->used) - __CPROVER_old(b->offset)))
+__CPROVER_ensures(EP_AUX_CELL_SAME(b, __CPROVER_old(b->offset), EP_WINDOW_O(b)))
 ;
 
 /* at most n octets: the window is cut down to its first n octets */
@@ -438,56 +450,60 @@ ssize_t sts_atmost_aux(Source *source, Sink *sink, ByteBuffer *b, const size_t n
 __CPROVER_requires(EP_SOURCE_OK(source) && EP_SINK_OK(sink) && EP_AUX_OK(b, source, sink))
 __CPROVER_assigns(EP_PIPE_ASSIGNS;
     b->used > b->offset && n > 0: __CPROVER_object_upto(b->data + b->offset, b->used - b->offset))
-__CPROVER_ensures(EP_STS_AUX_ONCE_POST(source, EP_MIN(__CPROVER_old(b->used) - __CPROVER_old(b->offset), n), __CPROVER_return_value))
+__CPROVER_ensures(EP_STS_AUX_ONCE_OK(EP_MIN(EP_WINDOW_O(b), n), __CPROVER_return_value))
+__CPROVER_ensures(EP_STS_AUX_ONCE_FAIL(source, EP_MIN(EP_WINDOW_O(b), n), __CPROVER_return_value))
 __CPROVER_ensures(EP_AUX_FIELDS_SAME(b))
-__CPROVER_ensures(EP_AUX_CELL_SAME(b, __CPROVER_old(b->offset), EP_MIN(__CPROVER_old(b->used) - __CPROVER_old(b->offset), n)))
+__CPROVER_ensures(EP_AUX_CELL_SAME(b, __CPROVER_old(b->offset), EP_MIN(EP_WINDOW_O(b), n)))
 ;
 
 /* exactly n octets (return n), or a negative value with a prefix delivered:
- * m <= t <= n octets delivered / taken */
-#define EP_STS_N_AUX_POST(n, ret) \
-  (IMPLIES((ret) >= 0, (size_t)(ret) == (n) && EP_SRC_TOOK_O((n)) && EP_PIPE_MOVED_O((n)) && EP_NO_FAILURE_O) \
-   && IMPLIES((ret) < 0, g_src_pos >= __CPROVER_old(g_src_pos) && g_snk_pos >= __CPROVER_old(g_snk_pos) \
-        && EP_DELIVERED <= EP_TAKEN && EP_TAKEN <= (n) && EP_PIPE_MOVED_O(EP_DELIVERED)) \
-   && IMPLIES((ret) < 0 && (n) <= (size_t)SSIZE_MAX, EP_DELIVERED < (n) \
+ * never more than n taken, at most a window's worth of taken octets not
+ * delivered */
+#define EP_STS_N_AUX_POST_OK(n, ret) \
+  IMPLIES((ret) >= 0, (size_t)(ret) == (n) && EP_SRC_TOOK_O((n)) && EP_PIPE_MOVED_O((n)) && EP_NO_FAILURE_O)
+#define EP_STS_N_AUX_POST_PREFIX(n, w, ret) \
+  IMPLIES((ret) < 0, EP_MONOTONE_O && EP_LAG_O <= (w) && EP_TAKEN <= (n) && EP_DELIVERED <= (n) \
+        && EP_PIPE_MOVED_O(EP_DELIVERED))
+#define EP_STS_N_AUX_POST_CAUSE(n, ret) \
+   IMPLIES((ret) < 0 && (n) <= (size_t)SSIZE_MAX, EP_DELIVERED < (n) \
         && (((ret) == g_src_err && g_snk_nhard == __CPROVER_old(g_snk_nhard)) \
-         || ((ret) == -EINVAL && EP_TAKEN == EP_DELIVERED && EP_NO_FAILURE_O) \
-         || (EP_SNK_FAILED_O(ret) && EP_DELIVERED < EP_TAKEN))))
+         || ((ret) == -EINVAL && EP_LAG_O == 0 && EP_NO_FAILURE_O) \
+         || (EP_SNK_FAILED_O(ret) && EP_LAG_O >= 1)))
 
 ssize_t sts_n_aux(Source *source, Sink *sink, ByteBuffer *b, const size_t n)
 __CPROVER_requires(EP_SOURCE_OK(source) && EP_SINK_OK(sink) && EP_AUX_OK(b, source, sink))
 __CPROVER_assigns(EP_PIPE_ASSIGNS;
     n > 0: b->used; n > 0: b->offset;
     n > 0 && b->used > b->offset: __CPROVER_object_upto(b->data, b->used - b->offset))
-__CPROVER_ensures(EP_STS_N_AUX_POST(n, __CPROVER_return_value))
+__CPROVER_ensures(EP_STS_N_AUX_POST_OK(n, __CPROVER_return_value))
+__CPROVER_ensures(EP_STS_N_AUX_POST_PREFIX(n, EP_WINDOW_O(b), __CPROVER_return_value))
+__CPROVER_ensures(EP_STS_N_AUX_POST_CAUSE(n, __CPROVER_return_value))
 __CPROVER_ensures(b->data == __CPROVER_old(b->data) && b->size == __CPROVER_old(b->size))
 __CPROVER_ensures(IMPLIES(n == 0, EP_AUX_FIELDS_SAME(b)))
-__CPROVER_ensures(IMPLIES(n > 0, b->offset == 0 && b->used == __CPROVER_old(b->used) - __CPROVER_old(b->offset)))
-__CPROVER_ensures(EP_AUX_CELL_SAME(b, 0, __CPROVER_old(b->used) - __CPROVER_old(b->offset)))
+__CPROVER_ensures(IMPLIES(n > 0, b->offset == 0 && b->used == EP_WINDOW_O(b)))
+__CPROVER_ensures(EP_AUX_CELL_SAME(b, 0, EP_WINDOW_O(b)))
 ;
 
-/* runs until a transfer fails; m <= t octets delivered / taken; when the
- * source driver is a chunk driver and it was the source that ended the run,
- * everything taken has been delivered (an octet driver's hard error arrives in
- * the middle of a window: the t - m < window octets read before it stay in the
- * auxiliary buffer) */
+/* runs until a transfer fails; what reached the sink is a prefix.  When it
+ * was the source that ended the run and its driver is a chunk driver,
+ * everything taken has been delivered (lag 0); an octet driver's hard error
+ * arrives in the middle of a window: the lag < window octets read before it
+ * stay in the auxiliary buffer. */
 #define EP_STS_DRAIN_AUX_POST(source, w, ret) \
-  ((ret) < 0 && g_src_pos >= __CPROVER_old(g_src_pos) && g_snk_pos >= __CPROVER_old(g_snk_pos) \
-   && EP_DELIVERED <= EP_TAKEN && EP_PIPE_MOVED_O(EP_DELIVERED) \
+  ((ret) < 0 && EP_MONOTONE_O && EP_LAG_O <= (w) && EP_PIPE_MOVED_O(EP_DELIVERED) \
    && (((ret) == g_src_err && g_snk_nhard == __CPROVER_old(g_snk_nhard) \
-        && IMPLIES((source)->kind == DATA_KIND_CHUNK, EP_TAKEN == EP_DELIVERED) \
-        && EP_TAKEN - EP_DELIVERED <= (w)) \
-    || ((ret) == -EINVAL && EP_TAKEN == EP_DELIVERED && EP_NO_FAILURE_O) \
-    || (EP_SNK_FAILED_O(ret) && EP_DELIVERED < EP_TAKEN && EP_TAKEN - EP_DELIVERED <= (w))))
+        && IMPLIES((source)->kind == DATA_KIND_CHUNK, EP_LAG_O == 0)) \
+    || ((ret) == -EINVAL && EP_LAG_O == 0 && EP_NO_FAILURE_O) \
+    || (EP_SNK_FAILED_O(ret) && EP_LAG_O >= 1)))
 
 ssize_t sts_drain_aux(Source *source, Sink *sink, ByteBuffer *b)
 __CPROVER_requires(EP_SOURCE_OK(source) && EP_SINK_OK(sink) && EP_AUX_OK(b, source, sink))
 __CPROVER_assigns(EP_PIPE_ASSIGNS; b->used; b->offset;
     b->used > b->offset: __CPROVER_object_upto(b->data, b->used - b->offset))
-__CPROVER_ensures(EP_STS_DRAIN_AUX_POST(source, __CPROVER_old(b->used) - __CPROVER_old(b->offset), __CPROVER_return_value))
+__CPROVER_ensures(EP_STS_DRAIN_AUX_POST(source, EP_WINDOW_O(b), __CPROVER_return_value))
 __CPROVER_ensures(b->data == __CPROVER_old(b->data) && b->size == __CPROVER_old(b->size))
-__CPROVER_ensures(b->offset == 0 && b->used == __CPROVER_old(b->used) - __CPROVER_old(b->offset))
-__CPROVER_ensures(EP_AUX_CELL_SAME(b, 0, __CPROVER_old(b->used) - __CPROVER_old(b->offset)))
+__CPROVER_ensures(b->offset == 0 && b->used == EP_WINDOW_O(b))
+__CPROVER_ensures(EP_AUX_CELL_SAME(b, 0, EP_WINDOW_O(b)))
 ;
 
 #endif
